@@ -282,6 +282,10 @@ let run_case (env : mdesc array) (envl : mdesc list) (line : string) : string op
          Buffer.add_string b (Printf.sprintf "W %d %d %d"
                                 (if WF.wf_msg envl m then 1 else 0) (if Canon.canon_msg envl m then 1 else 0)
                                 (if Canon.env_ok envl then 1 else 0))
+       | "DEFECT" ->
+         (* model only: Spec/Defect.v, the C19 notion of "lacks something serialisation needs" *)
+         let m = parse_msg t in
+         Buffer.add_string b (Printf.sprintf "D %d" (if Defect.defect_msg envl m then 1 else 0))
        | op -> Buffer.add_string b ("ERR unknown op " ^ op)
      with
      | Failure s -> Buffer.clear b; Buffer.add_string b ("ERR " ^ s)
